@@ -3,6 +3,7 @@ from .runner import M
 SC = "src/allmydata/storage_client.py"
 UP = "src/allmydata/immutable/upload.py"
 PUB = "src/allmydata/mutable/publish.py"
+GM = "src/allmydata/grid_manager.py"
 
 FILTER = ("            # print(\"upload processing: {}\".format([srv.upload_permitted() for srv in connected_servers]))\n"
           "            connected_servers = [\n                srv\n                for srv in connected_servers\n"
@@ -12,6 +13,15 @@ HTTP_PERMIT = ("        if self._grid_manager_verifier is None:\n            ret
 PUB_FILTER = ("                if not server.upload_permitted():\n                    Message.log(\n"
               "                        message_type=u\"mutable:upload:no-gm-certs\",\n"
               "                        server_id=serverid,\n                    )\n                    continue\n")
+
+# the factory loop that keeps verified certificates, and the body of the returned predicate
+GM_KEEP = ("            if cert is not None:\n                valid_certs.append(cert)\n")
+GM_EXPIRES = "            expires = datetime.fromisoformat(cert[\"expires\"])\n"
+GM_PC = "            pc = cert['public_key'].encode('ascii')\n"
+GM_LOOP = ("        for cert in valid_certs:\n" + GM_EXPIRES + GM_PC +
+           "            assert type(pc) == type(public_key), \"{} isn't {}\".format(type(pc), type(public_key))\n"
+           "            if pc == public_key:\n                if expires > now:\n"
+           "                    # not-expired\n                    return True\n        return False\n")
 
 MUTANTS = [
     # ---- C32.1 ordering key
@@ -65,7 +75,48 @@ MUTANTS = [
       "            self.storage_client_config,\n            gm_verifier,\n        )", "            self.storage_client_config,\n        )", "C32.5"),
     M("verifier-without-keys", SC,
       "            self.storage_client_config.grid_manager_keys,\n            [SignedCertificate", "            [],\n            [SignedCertificate", "C32.5"),
+    # ---- C32.6 the verdict is per certificate (closure capture / loop-carried values)
+    M("expiry-parsed-in-factory-loop", GM, GM_KEEP,
+      "            if cert is not None:\n                expires = datetime.fromisoformat(cert[\"expires\"])\n"
+      "                valid_certs.append(cert)\n", "C32.6",
+      edits=[(GM, "        for cert in valid_certs:\n" + GM_EXPIRES, "        for cert in valid_certs:\n")],
+      note="seeded C32-A: validate() compares the expiry the factory loop parsed last"),
+    M("expiry-reads-captured-cert", GM, GM_LOOP,
+      "        for c in valid_certs:\n            expires = datetime.fromisoformat(cert[\"expires\"])\n"
+      "            pc = c['public_key'].encode('ascii')\n"
+      "            if pc == public_key:\n                if expires > now:\n                    return True\n        return False\n",
+      "C32.6", note="half-finished rename: `cert` inside the predicate is now the factory's loop variable (late binding)"),
+    M("expiry-newest-of-all", GM, "        for cert in valid_certs:\n" + GM_EXPIRES,
+      "        newest = max([datetime.fromisoformat(c[\"expires\"]) for c in valid_certs], default=now)\n"
+      "        for cert in valid_certs:\n            expires = newest\n", "C32.6",
+      note="judged by the longest-lived certificate shown, whoever it was issued to"),
+    M("expiry-of-previous-certificate", GM, GM_LOOP,
+      "        expires = now\n        for cert in valid_certs:\n" + GM_PC +
+      "            if pc == public_key:\n                if expires > now:\n                    return True\n"
+      "            expires = datetime.fromisoformat(cert[\"expires\"])\n        return False\n", "C32.6",
+      note="the expiry is parsed after the test: each certificate is judged by its predecessor's date"),
+    M("key-parsed-in-factory-loop", GM, GM_KEEP,
+      "            if cert is not None:\n                pc = cert['public_key'].encode('ascii')\n"
+      "                valid_certs.append(cert)\n", "C32.6",
+      edits=[(GM, GM_EXPIRES + GM_PC, GM_EXPIRES)],
+      note="sibling slip: the certificate's key is the one the factory loop decoded last"),
+    M("expiry-hoisted-after-factory-loop", GM, "    def validate():\n",
+      "    expires = datetime.fromisoformat(valid_certs[-1][\"expires\"]) if valid_certs else None\n\n    def validate():\n", "C32.6",
+      edits=[(GM, "        for cert in valid_certs:\n" + GM_EXPIRES, "        for cert in valid_certs:\n")],
+      note="same effect without a loop-carried variable: one expiry computed once by the factory"),
     # ---- benign
+    M("benign-gm-expiry-prechecked", GM, GM_KEEP,
+      "            if cert is not None:\n                checked = datetime.fromisoformat(cert[\"expires\"])\n"
+      "                valid_certs.append(cert)\n", None,
+      note="what the seeded change claimed to do, done right: parse early to notice bad dates, still parse per certificate"),
+    M("benign-gm-loop-rewritten", GM, GM_LOOP,
+      "        for i, c in enumerate(valid_certs):\n            e = c[\"expires\"]\n            until = datetime.fromisoformat(e)\n"
+      "            if not c['public_key'].encode('ascii') == public_key:\n                continue\n"
+      "            if now < until:\n                return True\n        return False\n", None),
+    M("benign-gm-boolean-temporary", GM,
+      "            if pc == public_key:\n                if expires > now:\n                    # not-expired\n                    return True\n",
+      "            mine = pc == public_key\n            current = not (expires <= now)\n"
+      "            ok = mine and current\n            if ok:\n                return True\n", None),
     M("benign-key-inlined", SC,
       "            seed = server.get_permutation_seed()\n            is_unpreferred = server not in preferred_servers\n            return (is_unpreferred,\n                    permute_server_hash(peer_selection_index, seed))",
       "            return (not (server in preferred_servers),\n                    permute_server_hash(peer_selection_index, server.get_permutation_seed()))", None),
@@ -90,6 +141,9 @@ MUTANTS = [
     # ---- vanished anchors
     M("vanish-psi", SC, "    def get_servers_for_psi(self, peer_selection_index, for_upload=False):",
       "    def get_servers_for_psi2(self, peer_selection_index, for_upload=False):", "ANALYSIS-ERROR"),
+    M("vanish-gm-predicate-loop", GM, "        for cert in valid_certs:\n" + GM_EXPIRES,
+      "        for cert in list(reversed(valid_certs)):\n" + GM_EXPIRES, "ANALYSIS-ERROR",
+      note="kept-list loop in a shape the rule does not follow: must not pass silently"),
     M("vanish-make-storage-server", SC, "    def _make_storage_server(self, server_id, server):",
       "    def _make_storage_server2(self, server_id, server):", "ANALYSIS-ERROR"),
 ]
